@@ -16,6 +16,7 @@ THEOREMS = [
     "SleapVerif.C17.toposort_parent_first",
     "SleapVerif.C17.toposort_fuel_suffices",
     "SleapVerif.C17.toposort_sound_nodup",
+    "SleapVerif.C17.isArbo_implies_arbo",
 ]
 
 
@@ -322,6 +323,14 @@ def main(chk: Check):
     re_lists = {idx: [(pl["names_order"].index(u), pl["names_order"].index(v)) for u, v in cases[idx][1]]
                 for idx, pl in plans.items()}
     model = model_of([e for _, e in cases])
+    # per-case non-vacuity: every listing treated as a tree satisfies the theorems' hypothesis
+    # (decidable recogniser `isArbo`, proved sound in Props/C17.lean); malformed ones mostly do not
+    arbo = run_driver("C17.lean", ["arbo " + lst(e, lambda x: f"{x[0]} {x[1]}") for _, e in cases])
+    for (kind, edges), a in zip(cases, arbo):
+        if is_tree_kind(kind) and edges and a != "1":
+            raise RuntimeError(f"generator produced a non-arborescence as tree case {kind}: {edges}")
+    chk.extra["tree_cases_satisfying_Arbo"] = sum(1 for (k, e), a in zip(cases, arbo) if is_tree_kind(k) and a == "1")
+    chk.extra["malformed_cases_satisfying_Arbo"] = sum(1 for (k, e), a in zip(cases, arbo) if not is_tree_kind(k) and a == "1")
     order_idx = sorted(re_lists)
     model_re = dict(zip(order_idx, model_of([re_lists[k] for k in order_idx]))) if order_idx else {}
 
